@@ -8,7 +8,6 @@ import (
 	"log/slog"
 	"os"
 	"runtime"
-	"runtime/pprof"
 	"strconv"
 	"strings"
 	"sync"
@@ -298,11 +297,6 @@ func replayTree(args []string) error {
 	res, err := vh.NewResult(args[1])
 	if err != nil {
 		return err
-	}
-	if pf := os.Getenv("C19_CPUPROFILE"); pf != "" {
-		f, _ := os.Create(pf)
-		pprof.StartCPUProfile(f)
-		defer pprof.StopCPUProfile()
 	}
 	type job struct {
 		no  int
